@@ -438,6 +438,89 @@ func clientStopWorld(et bool) sched.Scenario {
 	return cw
 }
 
+// clientUDPWorld: a Client enrols a CONNECTED UDP socket: OnOpen once (its reply is sent), traffic,
+// Close action, OnClose once with a nil error.
+func clientUDPWorld(et bool) sched.Scenario {
+	w := newWorld("client-udp")
+	cw := &clientWorld{world: w}
+	w.onOpen = func(w *world, ci *connInfo) ([]byte, Action) { return []byte("hello"), None }
+	w.onTraffic = func(w *world, ci *connInfo) Action {
+		b, _ := ci.c.Next(-1)
+		ci.consumed = append(ci.consumed, b...)
+		return Close
+	}
+	var got []byte
+	cw.body = func(cw *clientWorld) {
+		opts := []Option{WithLogger(nopLogger{}), WithNumEventLoop(1)}
+		if et {
+			opts = append(opts, WithEdgeTriggeredIO(true))
+		}
+		cli, err := NewClient(&mcHandler{w}, opts...)
+		if err != nil {
+			w.violate("client:new", "NewClient: %v", err)
+			return
+		}
+		if err := cli.Start(); err != nil {
+			w.violate("client:start", "Client.Start: %v", err)
+			return
+		}
+		port := 30000 + (os.Getpid()%5000)*2
+		pfd, _, err := mcsys.PUDPSocket(false, port)
+		if err != nil {
+			w.violate("client:harness", "udp socket: %v", err)
+			return
+		}
+		nc, err := net.DialUDP("udp4", nil, &net.UDPAddr{IP: net.IPv4(127, 0, 0, 1), Port: port})
+		if err != nil {
+			w.violate("client:harness", "dial: %v", err)
+			return
+		}
+		done := false
+		sched.Go("peer", func() {
+			buf := make([]byte, 2048)
+			sched.BlockUntil(func() bool { return mcsys.FdReadable(pfd) })
+			n, from, err := mcsys.PRecvfrom(pfd, buf)
+			if err == nil {
+				got = append(got, buf[:n]...)
+				_ = mcsys.PSendto(pfd, []byte("reply"), from)
+				settle(nil)
+			}
+			done = true
+		})
+		if _, err := cli.Enroll(nc); err != nil {
+			w.violate("client:enroll", "Client.Enroll(udp): %v", err)
+		}
+		sched.BlockUntil(func() bool { return done })
+		sched.WaitIdle()
+		sched.WaitIdle()
+		w.runErr = cli.Stop()
+		_ = mcsys.PClose(pfd)
+	}
+	w.checks = append(w.checks, checkEnd, func(w *world, out *sched.Outcome) (string, string) {
+		if string(got) != "hello" {
+			return fmt.Sprintf("the peer of the enrolled UDP socket received %q instead of the OnOpen reply", got), "client-udp:reply"
+		}
+		if len(w.conns) != 1 {
+			return fmt.Sprintf("%d connections were opened", len(w.conns)), "client-udp:open"
+		}
+		ci := w.conns[0]
+		if ci.opens != 1 || ci.closes != 1 || len(ci.afterClose) > 0 {
+			return fmt.Sprintf("connected client UDP socket: OnOpen %d times, OnClose %d times, after close: %v", ci.opens, ci.closes, ci.afterClose), "client-udp:lifecycle"
+		}
+		if ci.closeErr != nil {
+			return fmt.Sprintf("Close action on the client UDP socket reported error %v", ci.closeErr), "client-udp:err"
+		}
+		if string(ci.consumed) != "reply" {
+			return fmt.Sprintf("OnTraffic of the client UDP socket saw %q", ci.consumed), "client-udp:payload"
+		}
+		if m, s := fdCheck(w, out); m != "" {
+			return m, s
+		}
+		return "", ""
+	})
+	return cw
+}
+
 func TestMC_C06(t *testing.T) {
 	cfgs, byName := shutSchedConfigs()
 	runEngineCheck(t, "C06", cfgs, byName, fmt.Sprintf("%d shutdown scenarios (sources: Engine.Stop, package Stop, Shutdown action from OnOpen/OnTraffic/OnClose/OnTick/OnBoot, Client.Stop; situations: idle, being accepted, pending outbound, async request in flight, ticker, two listeners) x {LT,ET}, every schedule within the delay bound listed per scenario", len(cfgs)))
